@@ -18,16 +18,16 @@ QUICK = dict(ValChars={"1", "a", "."}, Digits={"1"}, MaxLen=5, MaxSpaces=1, AllP
 THOROUGH = dict(ValChars={"0", "1", "a", "."}, Digits={"0", "1"}, MaxLen=6, MaxSpaces=1, AllParams=False)
 SIM = dict(ValChars={"0", "1", "2", "a", "b", "."}, Digits={"0", "1", "2"}, MaxLen=12, MaxSpaces=3, AllParams=True)
 
-# (unit, timespan given as timedelta, falsy lookup values, error object given)
-VARIANTS = [(1.0, False, False, True), (0.5, True, True, False), (2.0, False, True, True)]
+# (unit, timespan given as timedelta, falsy lookup values, error object given, HistoricalScheduler instead of TestScheduler)
+VARIANTS = [(1.0, False, False, True, False), (0.5, True, True, False, True), (2.0, False, True, True, False)]
 
 
 def _job(ln):
     out = []
     n = 0
-    for unit, td, falsy, we in VARIANTS:
+    for unit, td, falsy, we, hist in VARIANTS:
         n += 1
-        out += mc.judge(ln["scn"], ln["obs"], unit=unit, as_timedelta=td, falsy=falsy, with_error=we)
+        out += mc.judge(ln["scn"], ln["obs"], unit=unit, as_timedelta=td, falsy=falsy, with_error=we, hist=hist)
     return n, out
 
 
@@ -38,7 +38,8 @@ def run(tier: str) -> int:
                "(digits, a letter, '.'; multi-character values), '(' ')' ',' ' ' '|' '#', enumerated character by character by TLC on "
                "Marbles.tla, x parameter points (timespan, shift, lookup keys, raise_stopped); each given to parse, "
                "from_marbles/cold, hot and the marbles_testing context under three codec variants (time unit 1 / 0.5 / 2 s, float or "
-               "timedelta, plain or falsy lookup values, error object given or defaulted); non-trivial = the string has a group, a "
+               "timedelta, plain or falsy lookup values, error object given or defaulted, TestScheduler or HistoricalScheduler with an "
+               "absolute datetime due time for hot); non-trivial = the string has a group, a "
                "multi-character value, a space, or a marble after a terminal")
     res = tlc.run("Marbles", tlc.cfg_text(consts, invariants=INVS + ["Export"]), workers=1, timeout=3000, xmx="3g",
                   allow_violation=False)
@@ -108,7 +109,7 @@ def run(tier: str) -> int:
 def replay(rec) -> int:
     api = rec["api"].split(".")[0]
     fails = mc.judge(rec["scn"], rec["expected"], unit=rec.get("unit", 1.0), as_timedelta=rec.get("as_timedelta", False),
-                     falsy=rec.get("falsy", False), with_error=rec.get("with_error", True), apis=(api,))
+                     falsy=rec.get("falsy", False), with_error=rec.get("with_error", True), hist=rec.get("hist", False), apis=(api,))
     fails = [f for f in fails if f["api"] == rec["api"]]
     print(json.dumps(fails[0], default=str)[:2000] if fails else "replay: observation allowed by the spec")
     return 1 if fails else 0
